@@ -1,15 +1,306 @@
 package main
 
+// Translator "pool": reads pipeline/event.go and emits Gen/PoolGen.v
+//   pool_lm_fits       : the capacity test of lowMemoryEventPool.get          (`inUse <= p.capacity`)
+//   pool_lm_avail      : the comparison of lowMemoryEventPool.eventsAvailable (`int(p.inUseEvents.Load()) < p.capacity`)
+//   pool_std_avail     : the availability test of eventPool.wakeupWaiters     (`p.inUseEvents.Load() < int64(p.capacity)`)
+//   pool_lm_tick_cond  : the condition under which lowMemoryEventPool.wakeupWaiters broadcasts, over
+//   pool_std_tick_cond   (w = `waiters > 0`, a = `eventsAvailable`); same for eventPool.wakeupWaiters
+// Anything it does not recognise is an error: the tie is broken and the check reports it.
+
+import (
+	"fmt"
+	"go/ast"
+	"go/parser"
+	"go/token"
+	"path/filepath"
+	"strings"
+)
+
 func init() { gens["pool"] = genPool }
 
-func genPool(repo string) (string, string, error) { return "PoolGen.v", poolPlaceholder, nil }
+func poolMethod(f *ast.File, recv, name string) *ast.FuncDecl {
+	for _, d := range f.Decls {
+		fd, ok := d.(*ast.FuncDecl)
+		if !ok || fd.Recv == nil || fd.Name.Name != name || len(fd.Recv.List) != 1 {
+			continue
+		}
+		if se, ok := fd.Recv.List[0].Type.(*ast.StarExpr); ok {
+			if id, ok := se.X.(*ast.Ident); ok && id.Name == recv {
+				return fd
+			}
+		}
+	}
+	return nil
+}
 
-const poolPlaceholder = `(* placeholder, regenerated by harness/gen pool *)
-From Coq Require Import ZArith Bool.
-Local Open Scope Z_scope.
-Definition pool_lm_fits (r cap : Z) : bool := (r <=? cap).
-Definition pool_lm_avail (inuse cap : Z) : bool := (inuse <? cap).
-Definition pool_std_avail (inuse cap : Z) : bool := (inuse <? cap).
-Definition pool_lm_tick_cond (w a : bool) : bool := (w && negb a).
-Definition pool_std_tick_cond (w a : bool) : bool := (w && a).
-`
+func plUnparen(e ast.Expr) ast.Expr {
+	for {
+		p, ok := e.(*ast.ParenExpr)
+		if !ok {
+			return e
+		}
+		e = p.X
+	}
+}
+
+// strips conversions int(x) / int64(x)
+func plUnconv(e ast.Expr) ast.Expr {
+	e = plUnparen(e)
+	if c, ok := e.(*ast.CallExpr); ok && len(c.Args) == 1 {
+		if id, ok := c.Fun.(*ast.Ident); ok && (id.Name == "int" || id.Name == "int64") {
+			return plUnconv(c.Args[0])
+		}
+	}
+	return e
+}
+
+// p.<field>
+func plIsPField(e ast.Expr, field string) bool {
+	s, ok := plUnconv(e).(*ast.SelectorExpr)
+	if !ok || s.Sel.Name != field {
+		return false
+	}
+	id, ok := s.X.(*ast.Ident)
+	return ok && id.Name == "p"
+}
+
+// p.<field>.<method>()
+func plIsPFieldCall(e ast.Expr, field, method string) bool {
+	c, ok := plUnconv(e).(*ast.CallExpr)
+	if !ok || len(c.Args) != 0 {
+		return false
+	}
+	s, ok := c.Fun.(*ast.SelectorExpr)
+	return ok && s.Sel.Name == method && plIsPField(s.X, field)
+}
+
+// p.<method>()
+func plIsPCall(e ast.Expr, method string) bool {
+	c, ok := plUnparen(e).(*ast.CallExpr)
+	if !ok || len(c.Args) != 0 {
+		return false
+	}
+	s, ok := c.Fun.(*ast.SelectorExpr)
+	if !ok || s.Sel.Name != method {
+		return false
+	}
+	id, ok := s.X.(*ast.Ident)
+	return ok && id.Name == "p"
+}
+
+func plIsIdent(e ast.Expr, name string) bool {
+	id, ok := plUnparen(e).(*ast.Ident)
+	return ok && id.Name == name
+}
+
+func plIsZero(e ast.Expr) bool {
+	b, ok := plUnparen(e).(*ast.BasicLit)
+	return ok && b.Kind == token.INT && b.Value == "0"
+}
+
+// comparison `x op y` as a Coq boolean over Z variables named xs, ys
+func plCoqCmp(op token.Token, xs, ys string) (string, error) {
+	switch op {
+	case token.LSS:
+		return fmt.Sprintf("(%s <? %s)", xs, ys), nil
+	case token.LEQ:
+		return fmt.Sprintf("(%s <=? %s)", xs, ys), nil
+	case token.GTR:
+		return fmt.Sprintf("(%s <? %s)", ys, xs), nil
+	case token.GEQ:
+		return fmt.Sprintf("(%s <=? %s)", ys, xs), nil
+	case token.EQL:
+		return fmt.Sprintf("(%s =? %s)", xs, ys), nil
+	case token.NEQ:
+		return fmt.Sprintf("(negb (%s =? %s))", xs, ys), nil
+	}
+	return "", fmt.Errorf("unsupported comparison %s", op)
+}
+
+// the heartbeat condition over w (= waiters > 0) and a (= eventsAvailable)
+func plCoqTickCond(e ast.Expr) (string, error) {
+	e = plUnparen(e)
+	switch v := e.(type) {
+	case *ast.Ident:
+		if v.Name == "eventsAvailable" {
+			return "a", nil
+		}
+	case *ast.UnaryExpr:
+		if v.Op == token.NOT {
+			s, err := plCoqTickCond(v.X)
+			if err != nil {
+				return "", err
+			}
+			return "(negb " + s + ")", nil
+		}
+	case *ast.BinaryExpr:
+		switch v.Op {
+		case token.LAND, token.LOR:
+			l, err := plCoqTickCond(v.X)
+			if err != nil {
+				return "", err
+			}
+			r, err := plCoqTickCond(v.Y)
+			if err != nil {
+				return "", err
+			}
+			if v.Op == token.LAND {
+				return "(" + l + " && " + r + ")", nil
+			}
+			return "(" + l + " || " + r + ")", nil
+		case token.GTR:
+			if plIsIdent(v.X, "waiters") && plIsZero(v.Y) {
+				return "w", nil
+			}
+		case token.LSS:
+			if plIsZero(v.X) && plIsIdent(v.Y, "waiters") {
+				return "w", nil
+			}
+		case token.NEQ:
+			if plIsIdent(v.X, "waiters") && plIsZero(v.Y) {
+				return "w", nil // the counter is never negative (invariant lm_waiters_count / sd_waiters_count)
+			}
+		}
+	}
+	return "", fmt.Errorf("heartbeat condition: unsupported expression")
+}
+
+func plContainsBroadcast(n ast.Node) bool {
+	found := false
+	ast.Inspect(n, func(x ast.Node) bool {
+		if e, ok := x.(ast.Expr); ok && plIsPFieldCall(e, "getCond", "Broadcast") {
+			found = true
+		}
+		return true
+	})
+	return found
+}
+
+// wakeupWaiters: returns (rhs of `eventsAvailable :=`, condition of the `if` that broadcasts)
+func poolTick(fd *ast.FuncDecl) (ast.Expr, ast.Expr, error) {
+	var availRhs, cond ast.Expr
+	waitersOK := false
+	nIf, nBc := 0, 0
+	ast.Inspect(fd.Body, func(n ast.Node) bool {
+		switch v := n.(type) {
+		case *ast.AssignStmt:
+			if len(v.Lhs) == 1 && len(v.Rhs) == 1 {
+				if plIsIdent(v.Lhs[0], "waiters") && plIsPFieldCall(v.Rhs[0], "slowWaiters", "Load") {
+					waitersOK = true
+				}
+				if plIsIdent(v.Lhs[0], "eventsAvailable") {
+					availRhs = v.Rhs[0]
+				}
+			}
+		case *ast.IfStmt:
+			if plContainsBroadcast(v.Body) {
+				nIf++
+				cond = v.Cond
+				if v.Else != nil {
+					nIf += 10
+				}
+			}
+		case *ast.CallExpr:
+			if plIsPFieldCall(v, "getCond", "Broadcast") {
+				nBc++
+			}
+		}
+		return true
+	})
+	if !waitersOK || availRhs == nil || nIf != 1 || nBc != 1 {
+		return nil, nil, fmt.Errorf("%s: expected `waiters := p.slowWaiters.Load()`, `eventsAvailable := ...` and exactly one `if` guarding the only Broadcast (waiters=%v avail=%v ifs=%d broadcasts=%d)",
+			fd.Name.Name, waitersOK, availRhs != nil, nIf, nBc)
+	}
+	return availRhs, cond, nil
+}
+
+// `<inUseEvents.Load()> op <p.capacity>` (conversions ignored)
+func poolAvailCmp(e ast.Expr) (string, error) {
+	b, ok := plUnparen(e).(*ast.BinaryExpr)
+	if !ok || !plIsPFieldCall(b.X, "inUseEvents", "Load") || !plIsPField(b.Y, "capacity") {
+		return "", fmt.Errorf("availability test is not `p.inUseEvents.Load() <op> p.capacity`")
+	}
+	return plCoqCmp(b.Op, "inuse", "cap")
+}
+
+func genPool(repo string) (string, string, error) {
+	fset := token.NewFileSet()
+	f, err := parser.ParseFile(fset, filepath.Join(repo, "pipeline", "event.go"), nil, 0)
+	if err != nil {
+		return "", "", err
+	}
+	lmGet := poolMethod(f, "lowMemoryEventPool", "get")
+	lmAvail := poolMethod(f, "lowMemoryEventPool", "eventsAvailable")
+	lmTick := poolMethod(f, "lowMemoryEventPool", "wakeupWaiters")
+	stdTick := poolMethod(f, "eventPool", "wakeupWaiters")
+	if lmGet == nil || lmAvail == nil || lmTick == nil || stdTick == nil {
+		return "", "", fmt.Errorf("pool methods not found in pipeline/event.go")
+	}
+	// 1. capacity test of the low-memory get: the only `if` comparing `inUse` with p.capacity
+	var fits string
+	nFits := 0
+	var ferr error
+	ast.Inspect(lmGet.Body, func(n ast.Node) bool {
+		if is, ok := n.(*ast.IfStmt); ok {
+			if b, ok := plUnparen(is.Cond).(*ast.BinaryExpr); ok && plIsIdent(b.X, "inUse") && plIsPField(b.Y, "capacity") {
+				nFits++
+				fits, ferr = plCoqCmp(b.Op, "r", "cap")
+			}
+		}
+		return true
+	})
+	if nFits != 1 || ferr != nil {
+		return "", "", fmt.Errorf("lowMemoryEventPool.get: expected exactly one `if inUse <op> p.capacity` (%d found, %v)", nFits, ferr)
+	}
+	// 2. eventsAvailable of the low-memory pool: a single return of the comparison
+	if len(lmAvail.Body.List) != 1 {
+		return "", "", fmt.Errorf("lowMemoryEventPool.eventsAvailable: expected a single return statement")
+	}
+	ret, ok := lmAvail.Body.List[0].(*ast.ReturnStmt)
+	if !ok || len(ret.Results) != 1 {
+		return "", "", fmt.Errorf("lowMemoryEventPool.eventsAvailable: expected a single return statement")
+	}
+	lmAvailS, err := poolAvailCmp(ret.Results[0])
+	if err != nil {
+		return "", "", fmt.Errorf("lowMemoryEventPool.eventsAvailable: %v", err)
+	}
+	// 3. heartbeats
+	lmRhs, lmCond, err := poolTick(lmTick)
+	if err != nil {
+		return "", "", fmt.Errorf("lowMemoryEventPool.%v", err)
+	}
+	if !plIsPCall(lmRhs, "eventsAvailable") {
+		return "", "", fmt.Errorf("lowMemoryEventPool.wakeupWaiters: eventsAvailable is not p.eventsAvailable()")
+	}
+	lmCondS, err := plCoqTickCond(lmCond)
+	if err != nil {
+		return "", "", fmt.Errorf("lowMemoryEventPool.wakeupWaiters: %v", err)
+	}
+	stdRhs, stdCond, err := poolTick(stdTick)
+	if err != nil {
+		return "", "", fmt.Errorf("eventPool.%v", err)
+	}
+	stdAvailS, err := poolAvailCmp(stdRhs)
+	if err != nil {
+		return "", "", fmt.Errorf("eventPool.wakeupWaiters: %v", err)
+	}
+	stdCondS, err := plCoqTickCond(stdCond)
+	if err != nil {
+		return "", "", fmt.Errorf("eventPool.wakeupWaiters: %v", err)
+	}
+	var b strings.Builder
+	b.WriteString("(* GENERATED from /repo/pipeline/event.go by harness/gen (translator \"pool\") — do not edit.\n")
+	b.WriteString("   The comparisons and heartbeat conditions of the two event pools, as written in the source. *)\n")
+	b.WriteString("From Coq Require Import ZArith Bool.\nLocal Open Scope Z_scope.\n")
+	b.WriteString("(* lowMemoryEventPool.get: `if inUse <op> p.capacity` with r = the result of inUseEvents.Inc() *)\n")
+	fmt.Fprintf(&b, "Definition pool_lm_fits (r cap : Z) : bool := %s.\n", fits)
+	b.WriteString("(* lowMemoryEventPool.eventsAvailable *)\n")
+	fmt.Fprintf(&b, "Definition pool_lm_avail (inuse cap : Z) : bool := %s.\n", lmAvailS)
+	b.WriteString("(* eventPool.wakeupWaiters: `eventsAvailable := ...` *)\n")
+	fmt.Fprintf(&b, "Definition pool_std_avail (inuse cap : Z) : bool := %s.\n", stdAvailS)
+	b.WriteString("(* the `if` that guards the heartbeat's Broadcast; w = `waiters > 0`, a = `eventsAvailable` *)\n")
+	fmt.Fprintf(&b, "Definition pool_lm_tick_cond (w a : bool) : bool := %s.\n", lmCondS)
+	fmt.Fprintf(&b, "Definition pool_std_tick_cond (w a : bool) : bool := %s.\n", stdCondS)
+	return "PoolGen.v", b.String(), nil
+}
